@@ -71,6 +71,16 @@ void sym_check_cmp(double a, int op, double b, const char* label)
         printf("CONFIRMED-VIOLATION label=%s a=%.17g b=%.17g op=%d\n", label, a, b, op);
     }
 }
+void sym_check_cmp_exact(double a, int op, double b, const char* label)
+{
+    ++checks;
+    printf("OUT %s %a %a\n", label, a, b);
+    if (!symc::concrete_holds(a, op, b, 0.0))
+    {
+        ++violations;
+        printf("CONFIRMED-VIOLATION label=%s a=%.17g b=%.17g op=%d\n", label, a, b, op);
+    }
+}
 void sym_close(double a, double b, double rel, const char* label)
 {
     ++checks;
